@@ -222,6 +222,7 @@ pub fn run(ctx: &Ctx, prop: &str, rep: &mut Report) {
         "stage_release_profile".into(),
         json!({
             "what": "same monitors and quick-tier workload, fast_qr compiled with opt-level 3, overflow-checks off, debug-assertions off (cargo profile verifrel), different seed(s)",
+            "fast_qr_hook_feature": std::env::var("VCHECK_REL_FLAVOUR").map(|f| if f == "hooks" { "on (this check lives on a hook)" } else { "OFF: fast_qr exactly as users compile it" }.to_string()).unwrap_or_default(),
             "child_runs": runs, "evaluations": evals, "distinct_nontrivial_sum_over_runs": distinct, "violations": violations,
             "wall_s": (t0.elapsed().as_secs_f64() * 10.0).round() / 10.0,
         }),
